@@ -243,6 +243,8 @@ SIGN_SWAP_CALLS = {'argmax': 'argmin', 'argmin': 'argmax', 'max': 'min', 'min': 
 
 
 def index(base, k):
+    if base[0] == 'nd':
+        base = base[1]
     if base[0] == 'lin' and base[1] == 0:                 # (sum c_i x_i)[k] = sum c_i x_i[k]
         return lin(0, [(index(t, k), c) for t, c in base[2]])
     if base[0] in ('tuple', 'list') and isconst(k) and isinstance(k[1], int) and not isinstance(k[1], bool):
@@ -288,6 +290,8 @@ ATOM_LEN = {}        # atom name -> length term (filled by the rules that introd
 
 
 def length(a):
+    if a[0] == 'nd':
+        a = a[1]
     tag = a[0]
     if tag in ('tuple', 'list', 'dict'):
         return ('const', len(a[1]))
@@ -469,8 +473,56 @@ def gamma(c, a, b):
     if a == b:
         return a
     if c[0] == 'not':
-        return ('gamma', c[1], b, a)
+        return gamma(c[1], b, a)
+    # "nan if all the candidates are nan else nanmin(some of them)"  ==  nanmin(some of them)
+    if a == NAN and c[0] == 'call' and c[1] == 'all' and len(c[2]) == 1 and c[2][0][0] == 'call' and c[2][0][1] == 'isnan' \
+            and b[0] == 'call' and b[1] in ('nanmin', 'nanmax') and len(b[2]) == 1 and b[2][0][0] == 'tuple' \
+            and c[2][0][2] and c[2][0][2][0][0] == 'tuple' and set(b[2][0][1]) <= set(c[2][0][2][0][1]):
+        return b
     return ('gamma', c, a, b)
+
+
+def _conj(g):
+    return set(g[1]) if g[0] == 'and' else set() if g == TRUE else {g}
+
+
+def arr_store(cur, k, v, g):
+    """array term after the store  cur[k] = v  executed under guard g  (stores keep program order)"""
+    # index given as the positions of a boolean mask == the mask itself
+    if k[0] == 'call' and k[1] == 'flatnonzero' and len(k[2]) == 1:
+        k = k[2][0]
+    # "if mask.any(): x[mask] = v"  ==  "x[mask] = v"
+    cj = _conj(g)
+    for c in list(cj):
+        if c[0] == 'call' and c[1] == 'any' and len(c[2]) == 1 and c[2][0] == k:
+            cj.discard(c)
+            g = and_(cj)
+    init, stores = (cur[1], cur[2]) if cur[0] == 'arr' else (cur, ())
+    if stores:
+        k0, v0, g0 = stores[-1]
+        if k0 == k:
+            a, b = _conj(g0), _conj(g)
+            da, db = a - b, b - a
+            if len(da) == 1 and len(db) == 1:
+                (x,), (y,) = da, db
+                if not_(x) == y or not_(y) == x:
+                    return ('arr', init, stores[:-1] + ((k, gamma(x, v0, v), and_(a & b)),))
+    return ('arr', init, stores + ((k, v, g),))
+
+
+def merge_arrs(a, b):
+    """join of two branches that only added (guarded) stores to the same array"""
+    ia, sa = (a[1], a[2]) if a[0] == 'arr' else (a, ())
+    ib, sb = (b[1], b[2]) if b[0] == 'arr' else (b, ())
+    if ia != ib or (not sa and not sb):
+        return None
+    n = 0
+    while n < len(sa) and n < len(sb) and sa[n] == sb[n]:
+        n += 1
+    out = ('arr', ia, sa[:n]) if n else ia
+    for k, v, g in sa[n:] + sb[n:]:
+        out = arr_store(out, k, v, g)
+    return out
 
 
 def call(name, args, kwargs=()):
@@ -580,6 +632,11 @@ def renorm(y):
     return y
 
 
+def strip_nd(t):
+    """drop the transparent list->ndarray wrappers before comparing values"""
+    return subst(t, lambda x: x[1] if x[0] == 'nd' else None)
+
+
 def contains(t, pred):
     return any(pred(x) for x in walk(t))
 
@@ -651,6 +708,9 @@ def show(t, depth=0):
     if tag == 'dict':
         return '{' + ', '.join(f'{k!r}: {show(v)}' for k, v in t[1]) + '}'
     if tag == 'table':
+        names = {v[1] for k, v in t[1] if v[0] == 'col' and v[2] == k}
+        if len(names) == 1 and all(v[0] == 'col' and v[2] == k for k, v in t[1]):
+            return f'{next(iter(names))}<{len(t[1])} cols>'
         return 'table{' + ', '.join(f'{k}: {show(v)}' for k, v in t[1]) + '}'
     if tag == 'arr':
         return f"arr<{show(t[1])}; " + '; '.join(f'[{show(i)}] <- {show(v)}' + ('' if g == TRUE else f' if {show(g)}') for i, v, g in t[2]) + '>'
@@ -660,14 +720,18 @@ def show(t, depth=0):
         return f'first<{_keyname(t[1])} if {show(t[2])}: {show(t[3])}>'
     if tag == 'opaque':
         return f'?<{t[1]}>'
+    if tag == 'nd':
+        return show(t[1])
     return tag + '(' + ', '.join(show(x) if isinstance(x, tuple) else repr(x) for x in t[1:]) + ')'
 
 
 def _keyname(k):
     if isinstance(k, tuple) and k and k[0] == 'range':
         return f'range({show(k[1])},{show(k[2])})'
-    if isinstance(k, tuple) and k and k[0] in ('over', 'rows'):
+    if isinstance(k, tuple) and k and k[0] in ('over', 'rows', 'items', 'keysof'):
         return f'{k[0]}({show(k[1]) if isinstance(k[1], tuple) else k[1]})'
+    if isinstance(k, tuple) and k and k[0] in ('zip', 'product', 'nest'):
+        return f'{k[0]}(' + ', '.join(_keyname(x) for x in k[1]) + ')'
     return show(k) if isinstance(k, tuple) and k and isinstance(k[0], str) else repr(k)
 
 
